@@ -671,6 +671,13 @@ def gen_ident(draw, tier="quick"):
             )
         )
         case["pos_scale"] = draw(logfloat(1e-3, 1e2))
+        if dim > 1 and draw(st.booleans()):
+            # after the first evaluation the per-axis scales / orientation are assigned anew on the same object
+            case["respatial"] = {
+                "how": draw(st.sampled_from(["len_list", "len_list", "int_list", "anis", "angles"])),
+                "ratios": [draw(st.sampled_from([0.125, 0.3, 0.5, 2.0, 7.0])) for _ in range(dim - 1)],
+                "ang": [draw(st.sampled_from([0.4, -1.1, 2.0])) for _ in range(dim * (dim - 1) // 2)],
+            }
     case["int_lags"] = draw(st.lists(st.integers(-5, 50), min_size=1, max_size=5))
     return case
 
@@ -876,6 +883,51 @@ def check_ident(case, rec):
                 same(name, got[ok], want[ok], tsp * (sc + (nugget if sc != 1.0 else 0.0)), rr=rad[ok], kind="spatial_variant")
             if dim > 1:
                 rec.label("spatial_rotated" if any(abs(math.sin(2 * a)) > 1e-6 for a in spec.get("angles", [])) else "spatial_axis_aligned")
+        rs = case.get("respatial")
+        if rs and dim > 1:
+            ratios = np.array(rs["ratios"], dtype=float)
+            ang2 = list(spec.get("angles", [0.0] * len(rs["ang"])))
+            anis2 = np.array(anis_o, dtype=float)
+            how = rs["how"]
+            try:
+                with common.quiet():
+                    if how == "len_list":
+                        m.len_scale = [float(m.len_scale)] + [float(m.len_scale * q) for q in ratios]
+                        anis2 = ratios
+                    elif how == "int_list":
+                        i0 = float(m.integral_scale)
+                        if not (math.isfinite(i0) and i0 > 0):
+                            raise ValueError("no integral scale")
+                        m.integral_scale = [i0] + [float(i0 * q) for q in ratios]
+                        anis2 = ratios
+                    elif how == "anis":
+                        m.anis = [float(q) for q in ratios]
+                        anis2 = ratios
+                    else:
+                        m.angles = [float(a) for a in rs["ang"]]
+                        ang2 = [float(a) for a in rs["ang"]]
+            except ValueError:
+                rec.exclude("respatial_assignment_rejected")
+                how = None
+            if how is not None:
+                rec.label("respatial_" + how)
+                spec2 = dict(spec, len_scale=float(m.len_scale), anis=[float(q) for q in anis2], angles=ang2)
+                iso2 = geo.isometrize(dim, ang2, anis2, pos)
+                rad2 = np.linalg.norm(iso2, axis=0)
+                cond2 = float(np.max(anis2)) / float(np.min(anis2))
+                hmax2 = float(np.max(rad2)) * _eff_rescale(spec2) / spec2["len_scale"] if rad2.size else 0.0
+                slope2 = max(1.0, math.sqrt(hmax2)) if cls == "JBessel" else 1.0
+                ok2 = np.array([_lag_excluded(spec2, x, case) is None for x in rad2], dtype=bool)
+                if ok2.any():
+                    tsp2 = 1e-12 + 1e-14 * cond2 * slope2 + 5e-15 * _order_amp(spec)
+                    for f, g, name, sc in (
+                        (m.vario_spatial, fV, "vario_spatial", var),
+                        (m.cov_spatial, fC, "cov_spatial", var),
+                        (m.cor_spatial, fR, "cor_spatial", 1.0),
+                    ):
+                        got = np.asarray(lib(f, pos, _tags=dict(tags, fn=name, kind="spatial_variant")), dtype=float)
+                        want = np.asarray(lib(g, rad2, _tags=tags), dtype=float)
+                        same(name + f" after assigning {how}", got[ok2], want[ok2], tsp2 * (sc + (nugget if sc != 1.0 else 0.0)), rr=rad2[ok2], kind="spatial_variant_after_update")
     else:
         R_geo = float(spec["geo_scale"])
         zeta = np.array(case["zeta"], dtype=float) * R_geo  # great-circle distance in geo units
